@@ -198,7 +198,12 @@ class Env(object):
         self.frame_left = 0
         self.eof = False
         self.sticky = None
+        stale = []
+        if self.cfg.get('carry_stale') and self.dev is not None:
+            outs = [o for q in [self.dev.conn_q] + [st.q for st in self.dev.all_streams] for o in q]
+            stale = [o.pkt for o in sorted(outs, key=lambda o: o.seq)]
         self.dev = adbsim.Device(self, self.cfg)
+        self.dev.stale = stale
         self.session_over = None
 
     def t_close(self):
